@@ -11,16 +11,17 @@ import (
 
 // Exec is what one execution of a scenario reports to the schedule explorer.
 type Exec struct {
-	Points  []vsched.ChoicePoint
-	Verdict string
-	Viol    []string // property violations observed in this execution
-	Hist    uint64   // hash of the observable history (distinct-history statistics)
-	Outcome string   // coarse outcome class (distinct-outcome statistics)
-	Blocked []string
+	Points   []vsched.ChoicePoint
+	Verdict  string
+	Viol     []string // property violations observed in this execution
+	Hist     uint64   // hash of the observable history (distinct-history statistics)
+	Outcome  string   // coarse outcome class (distinct-outcome statistics)
+	Blocked  []string
 	Diverged string
-	Steps   int
+	Steps    int
 	HBFinal  uint64 // happens-before fingerprint of the complete execution
 	PrunedAt int    // >= 0: ended at this choice index, state already visited (no verdict)
+	Aux      int    // scenario-specific work counter (e.g. crash images recovered in this execution)
 }
 
 // RunFunc executes the scenario once with the given choice prefix.
@@ -72,8 +73,9 @@ type DFSResult struct {
 	Children  []DFSTask      `json:"children,omitempty"`
 	Nondet    string         `json:"nondet,omitempty"`
 	Rechecks  int            `json:"rechecks"`
-	Pruned    int            `json:"pruned,omitempty"`   // executions ended at an already visited state
+	Pruned    int            `json:"pruned,omitempty"`    // executions ended at an already visited state
 	HBTraces  []uint64       `json:"hb_traces,omitempty"` // distinct happens-before fingerprints of complete executions
+	Aux       int            `json:"aux,omitempty"`       // sum of Exec.Aux
 }
 
 type dfsState struct {
@@ -155,6 +157,7 @@ func (d *dfsState) one(prefix []int) *Exec {
 	if d.hb {
 		d.traces[x.HBFinal] = true
 	}
+	d.res.Aux += x.Aux
 	if len(x.Points) > d.res.MaxPoints {
 		d.res.MaxPoints = len(x.Points)
 	}
@@ -317,6 +320,7 @@ type DFSStats struct {
 	Subtrees                              int
 	Pruned                                int
 	HBTraces                              map[uint64]bool
+	Aux                                   int
 }
 
 // RunDFS explores the schedule tree of one scenario up to the deviation bound, sharding
@@ -334,6 +338,7 @@ func RunDFS(c *Ctx, pool *Pool, scenario string, params any, bound int, maxExecs
 		st.SumPoints += r.SumPoints
 		st.Rechecks += r.Rechecks
 		st.Pruned += r.Pruned
+		st.Aux += r.Aux
 		for _, h := range r.HBTraces {
 			st.HBTraces[h] = true
 		}
